@@ -1,5 +1,6 @@
 import GoomVerif.Drv.Util
 import GoomVerif.Model.A64Dec
+import GoomVerif.Model.A64Full
 /-! Driver for C17.
     `c17.dec <word> <row|->`   → what the model decodes under the oracle that lets exactly the claimed row through
                                  (`A64Dec.claimEnv`): equal to the implementation's observation iff that observation is
@@ -15,6 +16,9 @@ def showArg : Arg → String
   | .reg x n => (if x then "X" else "W") ++ toString n
   | .cond c => s!"c{c}"
   | .imm v => s!"i{v}"
+  | .imm64 v => s!"q{v.toNat}"
+  | .immShift a b => s!"s{a}:{b}"
+  | .mem rn off => s!"m{rn}:{off}"
   | .other => "?"
 
 def showRes : Option Res → String
@@ -46,6 +50,26 @@ def handle (toks : List String) : Option String :=
     match parseNat w, (if c = "-" then some none else (parseNat c).map some) with
     | some n, some claim => if n ≥ 2 ^ 32 then some "bad-op" else some (showRes (decode (claimEnv claim) (BitVec.ofNat 32 n)))
     | _, _ => some "bad-op"
+  | ["c17.full", w, c] =>
+    match parseNat w, (if c = "-" then some none else (parseNat c).map some) with
+    | some n, some claim => if n ≥ 2 ^ 32 then some "bad-op" else some (showRes (decodeFull (claimEnv claim) (BitVec.ofNat 32 n)))
+    | _, _ => some "bad-op"
+  | ["c17.arg", k, w] =>
+    match parseNat k, parseNat w with
+    | some kn, some n => if n ≥ 2 ^ 32 then some "bad-op" else
+      match Gen.A64Args.decodeArgOut kn (BitVec.ofNat 32 n) with
+      | .val => some "val"
+      | .nil => some "nil"
+      | .panic => some "panic"
+      | .unknown => some "untranslated"
+    | _, _ => some "bad-op"
+  | ["c17.cond", name, w] =>
+    match parseNat w with
+    | some n => if n ≥ 2 ^ 32 then some "bad-op" else
+      match Gen.A64Args.condByName name with
+      | some f => some (if f (BitVec.ofNat 32 n) then "true" else "false")
+      | none => some "untranslated"
+    | none => some "bad-op"
   | ["c17.def", w] =>
     match parseNat w with
     | some n => if n ≥ 2 ^ 32 then some "bad-op" else
